@@ -5,12 +5,26 @@
 let show_tok (t : ltoken) =
   Printf.sprintf "%d:%d:%d:%s" (int_of_n (kind_code t.lk)) (int_of_n t.lline) (int_of_n t.lcol)
     (match t.lv with None -> "-" | Some v -> if v = [] then "=" else hex_of_bytes v)
+let assign_code = int_of_n (kind_code K_ASSIGN)
 let () = iter_lines (fun line ->
   try
     match words line with
     | ["lex"; h] ->
         (match tokenize (if h = "-" then [] else bytes_of_hex h) with
          | LOk ts -> print_string (String.concat " " ("ok" :: string_of_int (List.length ts) :: List.map show_tok ts) ^ "\n")
+         | LNull -> print_string "lexnull\n"
+         | LFuel -> print_string "fuel\n")
+    | ["expr"; h] ->
+        (* text level: tokenizer model, then the expression-parser model on the tokens after the first '=' *)
+        (match tokenize (if h = "-" then [] else bytes_of_hex h) with
+         | LOk ts ->
+             let toks = parser_tokens ts in
+             let rec after_assign l = match l with [] -> [] | t :: r -> if int_of_n (kind_code t.tk) = assign_code then r else after_assign r in
+             (match parse (after_assign toks) with
+              | Ok (Some _, [], false) -> print_string "ok\n"
+              | Ok (_, _, _) -> print_string "error\n"
+              | Hang -> print_string "hang\n" | Unsupported -> print_string "unsupported\n" | Generic -> print_string "generic\n"
+              | OutOfFuel -> print_string "fuel\n")
          | LNull -> print_string "lexnull\n"
          | LFuel -> print_string "fuel\n")
     | [] -> ()
